@@ -399,14 +399,14 @@ func record(h *run.H, rs []*subjRes) {
 	}
 }
 
-const rule = "for each of the 33 transaction kinds: a well-formed signed transaction applicable in a warmed-up state x every single-field mutation operator (payload byte flip / member replacement, fee value / currency / gas, memo, type, signer key bytes, key algorithm tag incl. btcecsecp / ethsecp / unknown / empty, signature flip / truncate / extend / pre-hash tag, signature bytes reused unchanged from another slot / another transaction of the same key / a foreign key, signature list drop / duplicate / reorder / byte swap / copies of the first / append / prepend foreign, wrong key re-signing, victim address with re-signing, empty signer with btcec key; OLVM: EIP-155 fields, memo, unsigned payload members) x what the node saw of the original before (nothing; the original passed CheckTx on the same node; the original was executed in the previous block); oracle = own parse + own required-signer table + direct crypto-library verification; non-trivial = the mutant is unauthentic by the oracle and its original was accepted by CheckTx and succeeded in DeliverTx on the control replica; distinct by (kind, operator)"
+const rule = "for each of the 39 transaction kinds (33 native / OLVM and the six of the bid application): a well-formed signed transaction applicable in a warmed-up state x every single-field mutation operator (payload byte flip / member replacement, fee value / currency / gas, memo, type, signer key bytes, key algorithm tag incl. btcecsecp / ethsecp / unknown / empty, signature flip / truncate / extend / pre-hash tag, signature bytes reused unchanged from another slot / another transaction of the same key / a foreign key, signature list drop / duplicate / reorder / byte swap / copies of the first / append / prepend foreign, wrong key re-signing, victim address with re-signing, empty signer with btcec key; OLVM: EIP-155 fields, memo, unsigned payload members) x what the node saw of the original before (nothing; the original passed CheckTx on the same node; the original was executed in the previous block); oracle = own parse + own required-signer table + direct crypto-library verification; non-trivial = the mutant is unauthentic by the oracle and its original was accepted by CheckTx and succeeded in DeliverTx on the control replica; distinct by (kind, operator)"
 
 func TestC04(t *testing.T) {
 	h := run.Start(t, "C04")
 	defer h.Finish()
 	h.SetRule(rule)
 	shard, shards := run.Shard()
-	perCase := h.Scale(11, 33)
+	perCase := h.Scale(13, 39)
 	var first *violation // once a violation is found its minimal case is final: rapid's own shrinking re-runs end at once
 	rapid.Check(t, func(rt *rapid.T) {
 		u := hist.NewU(rt)
